@@ -33,9 +33,10 @@ const (
 	KArr
 	KMap
 	KIface
+	KCustom // zoo type with a custom codec (zoo.go)
 )
 
-var kindNames = []string{"bool", "int", "string", "bytes", "bytearr", "u256", "time", "ptr", "struct", "slice", "arr", "map", "iface"}
+var kindNames = []string{"bool", "int", "string", "bytes", "bytearr", "u256", "time", "ptr", "struct", "slice", "arr", "map", "iface", "custom"}
 
 type TyCode struct {
 	Is32 bool
@@ -99,6 +100,7 @@ type Node struct {
 	W      int
 	Float  bool
 	N      int // array length
+	Pred   string // KCustom (effective tree): name of the validator predicate registered for the type on this API, "" = none
 	Fields []Field
 	Elem   *Node // ptr target, slice/array element, map value
 	Key    *Node
@@ -155,6 +157,7 @@ type Shape struct {
 	// place then shows up as a result that depends on earlier calls.
 	arObj   map[*ARules]*serix.ArrayRules
 	rootOpt *serix.TypeSettings
+	Pred    map[reflect.Type]string // validated zoo types: name of the validator predicate registered on this API
 	HasZero bool // contains a sequence whose element can be empty on the wire, or an optional zero-size target
 	Feat    map[string]bool
 }
@@ -190,9 +193,15 @@ func (g *Gen) genNode(depth int, keyable bool) *Node {
 	for {
 		var k Kind
 		if leaf || r.Chance(2, 5) {
-			k = vx.Pick(r, []Kind{KBool, KInt, KInt, KInt, KString, KBytes, KByteArr, KU256, KTime})
+			k = vx.Pick(r, []Kind{KBool, KInt, KInt, KInt, KString, KBytes, KByteArr, KU256, KTime, KCustom})
 		} else {
 			k = vx.Pick(r, []Kind{KStruct, KStruct, KStruct, KSlice, KSlice, KArr, KMap, KMap, KIface, KPtr})
+		}
+		if k == KCustom {
+			if keyable {
+				continue
+			}
+			return g.genCustom(depth, r.Chance(1, 3))
 		}
 		if keyable && (k == KArr || k == KBytes || k == KSlice || k == KMap || k == KU256 || k == KTime || k == KIface || k == KPtr) {
 			continue
@@ -439,6 +448,33 @@ func (g *Gen) ensureCode(t reflect.Type) *TyCode {
 	return ts.Code
 }
 
+// genCustom: a zoo type with a custom codec; the validated ones get their predicate chosen once per shape.
+func (g *Gen) genCustom(depth int, withCode bool) *Node {
+	t := vx.Pick(g.r, zooTypes)
+	n := &Node{K: KCustom, T: t, Depth: depth}
+	if g.sh.Pred == nil {
+		g.sh.Pred = map[reflect.Type]string{}
+	}
+	switch t {
+	case tZooFixV:
+		if g.sh.Pred[t] == "" {
+			g.sh.Pred[t] = vx.Pick(g.r, []string{"pred_lt2", "pred_sum_even", "pred_first_nonzero"})
+		}
+	case tZooLPV:
+		if g.sh.Pred[t] == "" {
+			g.sh.Pred[t] = vx.Pick(g.r, []string{"pred_even_len", "pred_sum_even", "pred_first_nonzero"})
+		}
+	}
+	if withCode {
+		g.ensureCode(t)
+	}
+	g.feat("custom")
+	if g.sh.Pred[t] != "" {
+		g.feat("custom-validator")
+	}
+	return n
+}
+
 // genIface picks one of the three interface types; its alternatives are generated once per shape.
 func (g *Gen) genIface(depth int) *ifaceInfo {
 	var cands []reflect.Type
@@ -464,6 +500,9 @@ func (g *Gen) genIface(depth int) *ifaceInfo {
 	used := map[uint32]bool{}
 	for tries := 0; len(inf.Alts) < na && tries < 30; tries++ {
 		st := g.genStruct(maxInt(depth, g.maxDepth-1))
+		if g.r.Chance(1, 4) {
+			st = g.genCustom(depth, false) // a custom-codec type as alternative (registered by value)
+		}
 		ts := g.reg(st.T)
 		if ts.Code != nil && (ts.Code.Is32 != inf.Den32 || used[ts.Code.C]) {
 			continue // the empty struct type may already carry a code of the other denotation
@@ -477,7 +516,7 @@ func (g *Gen) genIface(depth int) *ifaceInfo {
 		}
 		used[ts.Code.C] = true
 		alt := Alt{Code: ts.Code.C, N: st}
-		if g.r.Bool() {
+		if st.K == KStruct && g.r.Bool() {
 			alt.N = &Node{K: KPtr, Elem: st, T: reflect.PointerTo(st.T), Depth: st.Depth}
 		}
 		inf.Alts = append(inf.Alts, alt)
@@ -518,7 +557,7 @@ func (g *Gen) assignRegistry(n *Node, pos TS, seen map[*Node]bool) {
 		} else if ts.L == nil && r.Chance(1, 4) {
 			ts.L = ip(g.pickL())
 		}
-		if ts.Rules == nil && len(g.sharable) > 0 && r.Chance(1, 5) {
+		if ts.Rules == nil && len(g.sharable) > 0 && r.Chance(1, 3) {
 			// share ONE rules object with another collection type (e.g. common bounds for a map and a slice)
 			ts.Rules = vx.Pick(r, g.sharable)
 			g.feat("shared-rules")
@@ -623,6 +662,9 @@ func (sh *Shape) effective(n *Node, pos TS, depth int) *Node {
 		}
 	case KByteArr:
 		c.Code = ts.Code
+	case KCustom:
+		c.Code = ts.Code
+		c.Pred = sh.Pred[n.T]
 	case KPtr:
 		c.Elem = sh.effective(n.Elem, pos, depth+1)
 	case KStruct:
@@ -743,6 +785,9 @@ func (sh *Shape) register() error {
 			return fmt.Errorf("register iface %s: %w", it, err)
 		}
 	}
+	if err := registerZooValidators(api, sh.Pred); err != nil {
+		return fmt.Errorf("register validators: %w", err)
+	}
 	sh.API = api
 	return nil
 }
@@ -809,6 +854,8 @@ func (n *Node) coq() string {
 		return fmt.Sprintf("(SBytes %s %d %d)", coqL(n.L), n.Mn, n.Mx)
 	case KByteArr:
 		return fmt.Sprintf("(SByteArr %d %s)", n.N, coqCode(n.Code))
+	case KCustom:
+		return n.coqCustom()
 	case KU256:
 		return "SU256"
 	case KTime:
@@ -836,6 +883,19 @@ func (n *Node) coq() string {
 		return fmt.Sprintf("(SIface %s %s)", den, s)
 	}
 	return "?"
+}
+
+// custom-codec node of the effective tree
+func (n *Node) coqCustom() string {
+	f := "(CFix 2)"
+	if n.T == tZooLP || n.T == tZooLPV {
+		f = "CLen8"
+	}
+	p := "None"
+	if n.Pred != "" {
+		p = "(Some " + n.Pred + ")"
+	}
+	return fmt.Sprintf("(SCustom %s %s %s)", coqCode(n.Code), f, p)
 }
 
 func coqFields(fs []Field) string {
@@ -896,6 +956,11 @@ func (n *Node) minSize() int {
 		return lp(n.L)
 	case KByteArr:
 		return cs(n.Code) + n.N
+	case KCustom:
+		if n.T == tZooLP || n.T == tZooLPV {
+			return cs(n.Code) + 1
+		}
+		return cs(n.Code) + 2
 	case KU256:
 		return 32
 	case KTime:
